@@ -11,8 +11,17 @@ def case_text(case, style=None):
 def polar_subs(case):
     """symbol -> 'p/q' for Polar's closed forms: parameters and `x0` initial-value symbols"""
     subs = {k: H.fr_str(v) for k, v in case["params"].items()}
+    assigned = None
     for x, v in case["sigma0"].items():
         subs[x + "0"] = H.fr_str(v)
+        if assigned is None:
+            try:
+                assigned = set(H.stmts_assigned(case["program"]["init"])) | set(H.stmts_assigned(case["program"]["body"]))
+            except Exception:
+                assigned = set()
+        if x not in assigned and x not in subs:
+            # a variable that is read but never assigned anywhere is a symbolic constant for Polar: it appears under its own name
+            subs[x] = H.fr_str(v)
     return subs
 
 
